@@ -47,9 +47,11 @@ type World struct {
 	baseIdx    map[btc.BIDX]bool
 	tipHash    [32]byte
 	midHash    [32]byte
-	blk2Hash   [32]byte // a base block with two transactions
-	blk4Hash   [32]byte // a base block with four transactions
-	cb2        *btc.Tx  // coinbase of B2
+	blk2Hash   [32]byte   // a base block with two transactions
+	blk4Hash   [32]byte   // a base block with four transactions
+	cb2        *btc.Tx    // coinbase of B2
+	orph       [2]*btc.Tx // two orphan transactions with the same short id under (B1 header, orphanNonce)
+	orphSid    uint64
 	unkHash    [2][32]byte
 	b1, b2     []byte // the next two blocks, not given to the node
 	b1Hash     [32]byte
@@ -242,6 +244,17 @@ func newWorld(dir string) *World {
 	w.b2Hash = btc.NewSha2Hash(w.b2[:80]).Hash
 	w.unkHash[0] = btc.Sha2Sum([]byte("verif-c18-unknown-0"))
 	w.unkHash[1] = btc.Sha2Sum([]byte("verif-c18-unknown-1"))
+	la, lb, sid := w.collidingOrphans()
+	for i, lt := range []uint32{la, lb} {
+		raw := w.orphanRaw(lt)
+		tx, n := btc.NewTx(raw)
+		if tx == nil || n != len(raw) {
+			fatal("orphan tx does not parse")
+		}
+		tx.SetHash(raw)
+		w.orph[i] = tx
+	}
+	w.orphSid = sid
 
 	// --- rest of host_init() / main()
 	common.Last.Block = ch.LastBlock()
@@ -443,6 +456,8 @@ type State struct {
 	H1    string `json:"h1"` // no | b2g | got
 	H2    bool   `json:"h2"`
 	Mp    bool   `json:"mp"`
+	O1    bool   `json:"o1"` // the first / second colliding orphan is in the pool of rejected transactions
+	O2    bool   `json:"o2"`
 	Why   string `json:"why,omitempty"`
 }
 
@@ -467,6 +482,8 @@ func (w *World) project(c *network.OneConnection, runExited bool) (st State) {
 	network.MutexRcv.Unlock()
 	txpool.TxMutex.Lock()
 	_, st.Mp = txpool.TransactionsToSend[w.tx1.Hash.BIdx()]
+	_, st.O1 = txpool.TransactionsRejected[w.orph[0].Hash.BIdx()]
+	_, st.O2 = txpool.TransactionsRejected[w.orph[1].Hash.BIdx()]
 	txpool.TxMutex.Unlock()
 	return
 }
